@@ -1,0 +1,139 @@
+//go:build verif
+
+package evictionWaitingList
+
+// Contracts for govc (/verif), property C09. Comment-only file: no executable code, not part of the default build.
+//
+// The eviction waiting list maps a root key (root hash ++ identifier byte: 0 = OldRoot, 1 = NewRoot) to the set of trie-node
+// hashes that may be deleted when that root is pruned. An entry whose hash set is kept in memory is `cache[key] != empty`;
+// an entry that was spilled to the database (cache full) is `cache[key] == nil` + the batch stored under `key` in `db`.
+//
+// UNIVERSAL STATEMENTS WITHOUT QUANTIFIERS: `watchedRoot()` and `watchedHash()` are uninterpreted constants ("an arbitrary
+// root key", "an arbitrary node hash"). A clause that mentions them is proved for every interpretation, i.e. for all root
+// keys / all hashes (quantifying over `string` makes the solvers give up).
+
+/*@
+spec fn watchedRoot() string
+spec fn watchedHash() string
+
+// the in-memory entry `key` lists node hash h
+spec fn lists(ewl *evictionWaitingList, key string, h string) bool = has(ewl.cache, key) && has(ewl.cache[key], h)
+// an entry `key` shields its hashes from the pruning of a root with identifier id unless both are OldRoot lists
+spec fn shields(key string, id int) bool = len(key) > 0 && !(key[len(key)-1] == 0 && id == 0)
+
+struct evictionWaitingList
+  guarded_by opMutex: cache
+  invariant map: !isNil(cache)
+
+// ---- collaborators (assumptions) ------------------------------------------------------------------------------------
+// the marshalizer writes only the batch it is given (Unmarshal) and nothing at all (Marshal)
+spec fn asBatch(o interface{}) *batch.Batch = payload(o, ptr_batch.Batch)
+
+func (m marshal.Marshalizer) Marshal(obj interface{}) (r []byte, err error)
+  assigns nothing
+
+func (m marshal.Marshalizer) Unmarshal(obj interface{}, buff []byte) (err error)
+  assigns asBatch(obj).Data
+
+// ---- Put ------------------------------------------------------------------------------------------------------------
+func (ewl *evictionWaitingList) Put(rootHash []byte, hashes data.ModifiedHashes) (err error)
+  requires inv(ewl)
+  requires collaborators-set: ewl.db != nil && ewl.marshalizer != nil
+  requires map-length-is-an-int: 0 <= len(ewl.cache) && len(ewl.cache) < 9223372036854775807     // representation fact the engine does not know
+  ensures  inv(ewl)
+  ensures  recorded: err == nil ==> has(ewl.cache, old(str(rootHash)))
+  ensures  in-memory-when-room: old(len(ewl.cache)) < ewl.cacheSize ==> err == nil && ewl.cache[old(str(rootHash))] == hashes
+  ensures  spilled-when-full: old(len(ewl.cache)) >= ewl.cacheSize && err == nil ==> isNil(ewl.cache[old(str(rootHash))]) && pHolds(ewl.db, old(str(rootHash)))
+  ensures  failure-changes-nothing: err != nil ==> (has(ewl.cache, old(str(rootHash))) <==> old(has(ewl.cache, str(rootHash)))) && ewl.cache[old(str(rootHash))] == old(ewl.cache[str(rootHash)])
+  ensures  other-roots-kept: watchedRoot() != old(str(rootHash)) ==> (has(ewl.cache, watchedRoot()) <==> old(has(ewl.cache, watchedRoot()))) && ewl.cache[watchedRoot()] == old(ewl.cache[watchedRoot()])
+  ensures  other-lists-kept: watchedRoot() != old(str(rootHash)) ==> (lists(ewl, watchedRoot(), watchedHash()) <==> old(lists(ewl, watchedRoot(), watchedHash())))
+  ensures  given-set-untouched: has(hashes, watchedHash()) <==> old(has(hashes, watchedHash()))
+  assigns  mapof(ewl.cache), elems(pcell(ewl.db, str(rootHash)))
+
+loop 1
+  invariant fresh-batch: fresh(b) && ((len(b.Data) == 0 && cap(b.Data) == 0) || fresh(b.Data))
+  invariant root-key-kept: str(rootHash) == old(str(rootHash))
+  invariant collaborators-kept: ewl.db == old(ewl.db) && ewl.marshalizer == old(ewl.marshalizer) && ewl.cache == old(ewl.cache) && ewl.cacheSize == old(ewl.cacheSize)
+
+// ---- Evict ----------------------------------------------------------------------------------------------------------
+func (ewl *evictionWaitingList) Evict(rootHash []byte) (hashes data.ModifiedHashes, err error)
+  requires inv(ewl)
+  requires collaborators-set: ewl.db != nil && ewl.marshalizer != nil
+  requires recorded-lists-are-allocated-maps: allocated(ewl.cache[watchedRoot()])
+  ensures  inv(ewl)
+  ensures  unknown-root-gives-nothing: !old(has(ewl.cache, str(rootHash))) ==> isNil(hashes) && err == nil
+  ensures  entry-removed: !has(ewl.cache, old(str(rootHash)))
+  ensures  in-memory-list-returned: old(has(ewl.cache, str(rootHash)) && len(ewl.cache[str(rootHash)]) != 0) ==> err == nil && hashes == old(ewl.cache[str(rootHash)])
+  ensures  returned-list-is-the-recorded-one: old(lists(ewl, str(rootHash), watchedHash()) && len(ewl.cache[str(rootHash)]) != 0) ==> err == nil && has(hashes, watchedHash())
+  ensures  nothing-invented: old(has(ewl.cache, str(rootHash)) && len(ewl.cache[str(rootHash)]) != 0) && has(hashes, watchedHash()) ==> old(lists(ewl, str(rootHash), watchedHash()))
+  ensures  spilled-list-loaded: old(has(ewl.cache, str(rootHash)) && len(ewl.cache[str(rootHash)]) == 0) && err == nil ==> fresh(hashes) && pcell(ewl.db, old(str(rootHash)))[0] == 0
+  ensures  error-gives-nothing: err != nil ==> isNil(hashes)
+  ensures  other-roots-kept: watchedRoot() != old(str(rootHash)) ==> (has(ewl.cache, watchedRoot()) <==> old(has(ewl.cache, watchedRoot()))) && ewl.cache[watchedRoot()] == old(ewl.cache[watchedRoot()])
+  ensures  other-lists-kept: watchedRoot() != old(str(rootHash)) ==> (lists(ewl, watchedRoot(), watchedHash()) <==> old(lists(ewl, watchedRoot(), watchedHash())))
+  assigns  mapof(ewl.cache), elems(pcell(ewl.db, str(rootHash)))
+
+loop 1
+  invariant index: -1 <= rangeindex && rangeindex < len(b.Data)
+  invariant fresh-set: fresh(hashes) && fresh(b)
+  invariant other-lists-kept: has(ewl.cache[watchedRoot()], watchedHash()) <==> old(has(ewl.cache[watchedRoot()], watchedHash()))
+
+// ---- ShouldKeepHash -------------------------------------------------------------------------------------------------
+// Reference counting across roots: a hash that is listed by another remaining entry (a later root re-introduced it, or an
+// earlier root still needs it) must not be deleted. `no-shielding-entry-left` is the safety direction; it needs "the range
+// loop has visited every key": ghost set visited(k, 1) of the keys the outer map range has yielded (exhaustion assumed by
+// the engine at loop exit). Entries spilled to the database (empty in-memory list) are outside this clause.
+func (ewl *evictionWaitingList) ShouldKeepHash(hash string, identifier data.TriePruningIdentifier) (keep bool, err error)
+  requires inv(ewl)
+  requires collaborators-set: ewl.db != nil && ewl.marshalizer != nil
+  requires recorded-lists-are-allocated-maps: allocated(ewl.cache[watchedRoot()])
+  ensures  keep-is-not-an-error: keep ==> err == nil
+  ensures  no-shielding-entry-left: err == nil && !keep ==> !(lists(ewl, watchedRoot(), hash) && len(ewl.cache[watchedRoot()]) != 0 && shields(watchedRoot(), identifier))
+  ensures  waiting-list-untouched: (has(ewl.cache, watchedRoot()) <==> old(has(ewl.cache, watchedRoot()))) && ewl.cache[watchedRoot()] == old(ewl.cache[watchedRoot()])
+  assigns  nothing
+
+loop 1
+  invariant collaborators-kept: ewl.db == old(ewl.db) && ewl.marshalizer == old(ewl.marshalizer) && ewl.cache == old(ewl.cache)
+  invariant waiting-list-kept: (has(ewl.cache, watchedRoot()) <==> old(has(ewl.cache, watchedRoot()))) && ewl.cache[watchedRoot()] == old(ewl.cache[watchedRoot()])
+  invariant watched-list-kept: (has(ewl.cache[watchedRoot()], hash) <==> old(has(ewl.cache[watchedRoot()], hash))) && len(ewl.cache[watchedRoot()]) == old(len(ewl.cache[watchedRoot()]))
+  invariant visited-entries-do-not-shield: visited(watchedRoot(), 1) ==> !(lists(ewl, watchedRoot(), hash) && len(ewl.cache[watchedRoot()]) != 0 && shields(watchedRoot(), identifier))
+
+loop 2
+  invariant index: -1 <= rangeindex && rangeindex < len(b.Data)
+  invariant fresh-set: fresh(hashes) && fresh(b)
+  invariant collaborators-kept: ewl.db == old(ewl.db) && ewl.marshalizer == old(ewl.marshalizer) && ewl.cache == old(ewl.cache)
+  invariant waiting-list-kept: (has(ewl.cache, watchedRoot()) <==> old(has(ewl.cache, watchedRoot()))) && ewl.cache[watchedRoot()] == old(ewl.cache[watchedRoot()])
+  invariant watched-list-kept: (has(ewl.cache[watchedRoot()], hash) <==> old(has(ewl.cache[watchedRoot()], hash))) && len(ewl.cache[watchedRoot()]) == old(len(ewl.cache[watchedRoot()]))
+  invariant spilled-entry-in-hand: key == watchedRoot() ==> len(ewl.cache[watchedRoot()]) == 0
+  invariant visited-entries-do-not-shield: visited(watchedRoot(), 1) ==> !(lists(ewl, watchedRoot(), hash) && len(ewl.cache[watchedRoot()]) != 0 && shields(watchedRoot(), identifier))
+@*/
+
+/*@
+// ---- reference counting across roots (composition of Put / Evict / ShouldKeepHash) -----------------------------------------
+// A hash that a later root re-introduced (it is in that root's NewRoot list) is reported "keep" when an earlier root is pruned.
+lemma reintroduced-hash-is-kept
+  vars ewl *evictionWaitingList, laterRoot []byte, hashes data.ModifiedHashes, h string, id data.TriePruningIdentifier
+  hyp  inv(ewl) && ewl.db != nil && ewl.marshalizer != nil && 0 <= len(ewl.cache) && len(ewl.cache) < ewl.cacheSize
+  hyp  new-root-key: len(laterRoot) > 0 && laterRoot[len(laterRoot)-1] == 1
+  hyp  has(hashes, h) && len(hashes) != 0 && watchedRoot() == str(laterRoot)
+  call e1 = ewl.Put(laterRoot, hashes)
+  call keep, e2 = ewl.ShouldKeepHash(h, id)
+  concl kept: e1 == nil && (e2 == nil ==> keep)
+
+// After the later root's list has been evicted (that root was pruned / its prune cancelled) it protects nothing any more,
+// and evicting an entry hands out exactly the recorded list.
+lemma evict-returns-what-put-recorded
+  vars ewl *evictionWaitingList, root []byte, hashes data.ModifiedHashes
+  hyp  inv(ewl) && ewl.db != nil && ewl.marshalizer != nil && 0 <= len(ewl.cache) && len(ewl.cache) < ewl.cacheSize
+  hyp  len(hashes) != 0
+  call e1 = ewl.Put(root, hashes)
+  call got, e2 = ewl.Evict(root)
+  concl same-list: e1 == nil && e2 == nil && got == hashes
+  concl entry-gone: !has(ewl.cache, str(root))
+
+// An OldRoot list does not shield against the pruning of another OldRoot (both are "no longer needed" lists), a NewRoot list does.
+lemma old-root-lists-do-not-shield-each-other
+  vars k string
+  hyp  len(k) > 0 && k[len(k)-1] == 0
+  concl not-from-old: !shields(k, 0)
+  concl from-new: shields(k, 1)
+@*/
